@@ -346,7 +346,7 @@ def stepLine (s : St) (toks : List String) : St × String :=
     | .error e => (s, errName e)
     | .ok h => ({ s with heap := h }, line "void" h (s.alog.obj.wm.ch ++ s.alog.obj.blocks.ch))
   | "alog.destroy" =>
-    if s.alog.st ≠ 1 then (s, "bad-op") else
+    if !canDestroy s.alog.st then (s, "bad-op") else
     doVoid s 3 (alogDestroy s.alog.obj h) (fun s x => { s with alog := x }) (fun c => c.wm.ch ++ c.blocks.ch)
   | _ => (s, "bad-op")
 
